@@ -879,9 +879,35 @@ def m_C12(run):
     return f
 
 
+# ------------------------------------------------------------------------------ C20
+def m_C20(run):
+    """message_count never decreases, and whenever no handler is in progress it equals the number of
+    handlers entered so far (metrics builds only: mc=- otherwise)."""
+    f = []
+    for a in range(run.nact):
+        prev = None
+        for r in range(len(run.rounds)):
+            line = run.aline(r, a)
+            mc = tok(line, "mc=")
+            if mc in (None, "-"):
+                continue
+            mc = int(mc)
+            if prev is not None and mc < prev:
+                f.append("round %d: message_count of actor %d went down from %d to %d" % (r + 1, a, prev, mc))
+                return f
+            prev = mc
+            evs = events(line)
+            he = len([e for e in evs if e.startswith("HE")])
+            hx = len([e for e in evs if e.startswith("HX")])
+            if he == hx and mc != he:
+                f.append("round %d: actor %d has entered %d handlers, none is in progress, but message_count is %d" % (r + 1, a, he, mc))
+                return f
+    return f
+
+
 MONITORS = {
     "C01": m_C01, "C02": m_C02, "C03": m_C03, "C04": m_C04, "C05": m_C05, "C06": m_C06, "C07": m_C07,
-    "C08": m_C08, "C09": m_C09, "C10": m_C10, "C11": m_C11, "C12": m_C12, "C13": m_C13, "C14": m_C14, "C15": m_C15,
+    "C08": m_C08, "C09": m_C09, "C10": m_C10, "C11": m_C11, "C12": m_C12, "C13": m_C13, "C14": m_C14, "C15": m_C15, "C20": m_C20,
 }
 
 
